@@ -265,6 +265,7 @@ Section New.
       repeat split; intros (r & Hr & He); exists r; (split; [assumption|]); eapply subterms_trans; eassumption.
     - intros e s' He Hs' Hsub. destruct (sig_uses s' Hs') as [-> _]. rewrite us_init, pos_count. eauto.
     - intros e s' He Hs' Hsub. destruct (sig_uses s' Hs') as [-> _]. rewrite us_next, pos_count. eauto.
+    - intros s Hs Hp. destruct (sig_uses s Hs) as [Hu _]. rewrite Hu, us_init, pos_count in Hp. exact Hp.
     - (* symbol signals are the inputs *)
       intros s Hs. destruct (sig_uses s Hs) as [_ ->].
       assert (Hse : In (sg_expr s) SE) by (rewrite <- sigs_exprs; now apply in_map).
